@@ -598,7 +598,7 @@ package xmpp
 //
 //@ func (*xmpp.Session).extractStreamFeatures(s) (f)
 //@   requires s != nil && s.transport != nil
-//@   ensures [C14.features.fresh] s.err == nil ==> freshList(f.Mechanisms.Mechanism)
+//@   ensures [C14.features.fresh,C11.features.fresh,C03.features.fresh] s.err == nil ==> freshList(f.Mechanisms.Mechanism)
 //@   ensures [C03.features.read,C13.attempt.fresh]  count(Decoded) == old(count(Decoded)) + 1 && (s.err == nil) == last(Decoded, 1)
 //@   ensures s.transport == old(s.transport)
 //@   assigns s.err
@@ -606,7 +606,7 @@ package xmpp
 //
 //@ func (*xmpp.Session).init(s)
 //@   requires s != nil && s.transport != nil
-//@   ensures [C14.features.fresh] s.err == nil ==> freshList(s.Features.Mechanisms.Mechanism)
+//@   ensures [C14.features.fresh,C11.features.fresh,C03.features.fresh] s.err == nil ==> freshList(s.Features.Mechanisms.Mechanism)
 //@   ensures [C03.features.read,C13.attempt.fresh]  count(Decoded) == old(count(Decoded)) + 1 && (s.err == nil) == last(Decoded, 1)
 //@   ensures s.transport == old(s.transport)
 //@   assigns s.err, s.Features
@@ -615,7 +615,7 @@ package xmpp
 //@ func (*xmpp.Session).reset(s)
 //@   requires s != nil && s.transport != nil
 //@   emit Restarted(s) when s.err == nil
-//@   ensures [C14.features.fresh] s.err == nil ==> freshList(s.Features.Mechanisms.Mechanism)
+//@   ensures [C14.features.fresh,C11.features.fresh,C03.features.fresh] s.err == nil ==> freshList(s.Features.Mechanisms.Mechanism)
 //@   ensures [C03.restart] count(StreamStarted) == old(count(StreamStarted)) + 1 && last(StreamStarted, 0) == s.transport
 //@   ensures [C03.restart.ok,C13.attempt.fresh] s.err == nil ==> last(StreamStarted, 1) && count(Decoded) == old(count(Decoded)) + 1 && last(Decoded, 1) && atlast(StreamStarted) < atlast(Decoded)
 //@   ensures [C03.restart.failed,C13.attempt.fresh] !last(StreamStarted, 1) ==> s.err != nil && count(Decoded) == old(count(Decoded))
@@ -637,9 +637,9 @@ package xmpp
 //@   ensures [C11.resume.notoffered,C09.resume.notoffered] !old(stanza.smOffered(s.Features)) ==> smStateZero(s)
 //@   ensures [C11.resume.noid] (old(stanza.smOffered(s.Features)) && old(s.SMState.Id) == "") ==> smStateKept(s)
 //@   ensures [C11.resume.once]    count(Write) <= old(count(Write)) + 1 && count(PacketRead) <= old(count(PacketRead)) + 1
-//@   ensures [C11.resume.ok,C09.resume.kept]      ok ==> count(Write) == old(count(Write)) + 1 && newReadIs(stanza.SMResumed) && last(PacketRead).(stanza.SMResumed).PrevId == old(s.SMState.Id) && atlast(Write) < atlast(PacketRead) && smStateKept(s) && s.err == nil
-//@   ensures [C11.resume.stale]   (!ok && count(Write) == old(count(Write)) + 1 && last(Write, 2)) ==> smStateZero(s)
-//@   ensures [C11.resume.refused] (!ok && newReadIs(stanza.SMFailed)) ==> s.err == nil
+//@   ensures [C11.resume.ok,C09.resume.kept,C03.resume.ok,C13.resume.ok]      ok ==> count(Write) == old(count(Write)) + 1 && newReadIs(stanza.SMResumed) && last(PacketRead).(stanza.SMResumed).PrevId == old(s.SMState.Id) && atlast(Write) < atlast(PacketRead) && smStateKept(s) && s.err == nil
+//@   ensures [C11.resume.stale,C13.resume.stale]   (!ok && count(Write) == old(count(Write)) + 1 && last(Write, 2)) ==> smStateZero(s)
+//@   ensures [C11.resume.refused,C13.resume.refused] (!ok && newReadIs(stanza.SMFailed)) ==> s.err == nil
 //@   ensures [C11.resume.other]   (!ok && count(PacketRead) == old(count(PacketRead)) + 1 && typeof(last(PacketRead)) != stanza.SMFailed) ==> s.err != nil
 //@   ensures s.transport == old(s.transport) && s.Features == old(s.Features) && s.BindJid == old(s.BindJid)
 //@   assigns s.err, s.SMState
